@@ -45,6 +45,9 @@ func BuildChain(pc config.PluginsConfig, base http.Handler) (http.Handler, error
 		if !ok {
 			return nil, fmt.Errorf("unknown plugin: %s", p.Name)
 		}
+		if err := checkKnownOptions(p.Name, p.Config); err != nil {
+			return nil, fmt.Errorf("plugin %s init failed: %w", p.Name, err)
+		}
 		mw, err := f(p.Name, p.Config)
 		if err != nil {
 			return nil, fmt.Errorf("plugin %s init failed: %w", p.Name, err)
@@ -52,6 +55,38 @@ func BuildChain(pc config.PluginsConfig, base http.Handler) (http.Handler, error
 		h = mw(h)
 	}
 	return h, nil
+}
+
+// shippedOptions lists the options the plugins shipped with Helios understand. An option
+// they do not know is most likely a misspelt one ("max_request_size"), and the plugin would
+// start with a default in place of what the operator asked for - a size limit or an API key
+// that is not in force. Plugins registered by others are not listed and not checked.
+var shippedOptions = map[string][]string{
+	"logging":     {},
+	"request-id":  {},
+	"custom-auth": {"apiKey"},
+	"headers":     {"set", "request_set"},
+	"size_limit":  {"max_request_body", "max_response_body"},
+	"gzip":        {"level", "min_size", "content_types"},
+}
+
+func checkKnownOptions(name string, cfg map[string]interface{}) error {
+	known, shipped := shippedOptions[name]
+	if !shipped {
+		return nil
+	}
+	for option := range cfg {
+		found := false
+		for _, k := range known {
+			if k == option {
+				found = true
+			}
+		}
+		if !found {
+			return fmt.Errorf("unknown option %q (known options: %v)", option, known)
+		}
+	}
+	return nil
 }
 
 // List returns the names of available built-in plugins
